@@ -42,6 +42,15 @@ pub fn run(ctx: &mut Ctx) {
         cfg.big = false;
         cfg.node_subject = case % 5 == 1;
         let (_m, e) = universe(&mut rng, cfg, case);
+        // every 120th case: a deep chain (129..300 levels)
+        let e = if case % 120 == 13 {
+            ctx.count("deep_chain_inputs");
+            let adv = gen::adversarial_models();
+            let deep: Vec<&(String, gen::M)> = adv.iter().filter(|(l, _)| l.starts_with("deep-chain")).collect();
+            gen::build(&deep[(case / 120) as usize % deep.len()].1, gen::Route::Plain, &mut rng)
+        } else {
+            e
+        };
         let key = fresh_key(&mut rng);
         let t = tree_of(&e);
         ctx.nontrivial(t.shape_hash());
@@ -51,7 +60,8 @@ pub fn run(ctx: &mut Ctx) {
         // single-position variants of present elements under each action
         let n_single = 6.min(flat.len());
         for _ in 0..n_single {
-            let (path, target) = &flat[rng.below(flat.len())];
+            // (biased towards the deepest element, which a depth-limited walk would miss)
+            let (path, target) = if rng.chance(1, 3) { flat.iter().max_by_key(|(p, _)| p.len()).unwrap() } else { &flat[rng.below(flat.len())] };
             for act in ACTS {
                 let v = e.elide_removing_set_with_action(&gen::digest_set(&[target.digest]), &action(act, &key));
                 ctx.eval();
